@@ -142,6 +142,31 @@ def fam_breach(rng, cfg=CFG_A):
     return out
 
 
+def fam_shared(rng, cfg=CFG_A):
+    """C06: several users hold the SAME locator with different blobs (other penalty, other size, undecryptable, encrypted under
+    another id), in every submission order; the dispute is then confirmed (or is already in the cache when the last one arrives);
+    everybody reads their own appointment back."""
+    out = []
+    blobs = {"v1": lambda i: valid(i, 1), "v6": lambda i: valid(i, 6), "big": lambda i: valid(i, 3),
+             "garbled": lambda i: garbled(300), "wrongkey": lambda i: valid(i % 3 + 1, 1),
+             "trailing": lambda i: {"kind": "trailing", "d": D(i), "p": P(i, 1), "extra": 3, "cut": 1}}
+    pairs = [("v1", "v6"), ("v6", "v1"), ("garbled", "v1"), ("v1", "garbled"), ("wrongkey", "v6"), ("big", "trailing"),
+             ("trailing", "v1"), ("v1", "v1")]
+    for n, (b1, b2) in enumerate(pairs):
+        for late in (False, True):
+            ops = [reg(1), reg(2), reg(3), add(1, 1, blobs[b1](1))]
+            if not late:
+                ops += [add(2, 1, blobs[b2](1)), add(3, 1, valid(1, 7) if n % 2 else garbled(17)), add(3, 2, valid(2, 1))]
+                ops += probes([1, 2, 3], [1])
+                ops += [mine([D(1)])]
+            else:
+                ops += [mine([D(1)]), mine([]) if n % 2 else mine([D(2)]), add(2, 1, blobs[b2](1)), add(3, 1, valid(1, 7))]
+            ops += probes([1, 2, 3], [1, 2]) + [sub(1), sub(2), sub(3), mine([P(1, 1)] if n % 3 == 0 else []), mine([])]
+            ops += probes([1, 2, 3], [1])
+            out.append(scen("shared-%s-%s-%s" % (b1, b2, "late" if late else "held"), cfg, ops))
+    return out
+
+
 def fam_late(rng, cfg=CFG_A):
     """C01: appointment arriving after its dispute was confirmed: cache window boundary (ages 0,1,5,6,7)."""
     out = []
